@@ -14,6 +14,8 @@ use std::io::Write;
 use std::path::Path;
 use std::sync::{Arc, Mutex};
 
+static STUCK_PROGRAMS: std::sync::atomic::AtomicUsize = std::sync::atomic::AtomicUsize::new(0);
+
 fn pv(s: &str) -> Vec<String> {
     if s.is_empty() {
         vec![]
@@ -170,6 +172,10 @@ pub fn run(prop: &str, tier: &str, seed: u64, out_dir: &Path, threads: usize) ->
             out.per_file = 400;
             let cx = Conc::new("ascii", 1);
             loop {
+                // after a number of deadlocked programs the verdict is clear: do not spend the budget on more
+                if STUCK_PROGRAMS.load(std::sync::atomic::Ordering::SeqCst) > 12 {
+                    break;
+                }
                 let job = jobs.lock().unwrap().pop();
                 let (jid, job) = match job {
                     Some(j) => j,
@@ -184,6 +190,9 @@ pub fn run(prop: &str, tier: &str, seed: u64, out_dir: &Path, threads: usize) ->
                 if std::env::var("VERIF_DEBUG").is_ok() {
                     eprintln!("job {} {} threads={} bound={:?} schedules={} yields={} trunc={} {:?} {:?}", jid, job.cfg, job.progs.len(), job.max_preempt, ex.schedules, ex.max_yields, ex.truncated, t0.elapsed(),
                               job.progs.iter().map(|p| p.iter().map(|c| format!("{}:{}", c.op, c.p.join("/"))).collect::<Vec<_>>()).collect::<Vec<_>>());
+                }
+                if ex.histories.values().any(|h| h.3) {
+                    STUCK_PROGRAMS.fetch_add(1, std::sync::atomic::Ordering::SeqCst);
                 }
                 let seq = sequential_outcomes(&mk, &cx, universe, &job.progs);
                 {
